@@ -103,6 +103,9 @@ Definition extract_meta (m : meta) : (string * string) + exn :=
   | _, _ => inr TypeError
   end.
 
+Definition value_of_presult (p : presult) : option value :=
+  match p with POk id _ => Some (VOk id) | PErr id => Some (VErr id) | PRaise => None end.
+
 Section WithPreparer.
   Variable prep : key -> json -> nat -> presult.
 
@@ -177,6 +180,28 @@ Section WithPreparer.
 
   Definition run (ops : list op) (s : state) : state :=
     fold_left (fun st o => fst (step o st)) ops s.
+
+  (* ---- the background re-prepare, split at its await -------------------------
+     cache.py:233-262 _reprepare_and_update_cache.  NOT part of the sequential
+     C15 model above (C16 models the tasks and the event loop); it is here only
+     to state the lost-update finding of the concurrent stream precisely:
+         cached = __CACHE.get(key)                       [rp_begin]
+         outcome = await preparer(name, deepcopy(cached.spec))     <- may suspend
+         __CACHE[key] = cached._replace(resource=..., prepared_at=...)   [rp_end]
+     rp_end stores the entry READ BEFORE the await, whatever the cache holds now. *)
+  Definition rp_begin (k : key) (s : state) : option (entry * presult * nat * state) :=
+    match lookup k (cache s) with
+    | None => None
+    | Some e => Some (e, prep k (e_spec e) (List.length (preps s)), clock s,
+                      State (cache s) (S (clock s)) (k :: preps s))
+    end.
+
+  Definition rp_end (k : key) (read : entry) (p : presult) (started : nat) (s : state) : state :=
+    match value_of_presult p with
+    | None => State (cache s) (S (clock s)) (preps s)          (* preparer raised: nothing stored *)
+    | Some v => State (set_entry k (Entry (e_spec read) v (e_version read) started (e_sysdata read)) (cache s))
+                      (S (clock s)) (preps s)
+    end.
 
   (* ---- the specification: a plain map  key -> (version, result) ---------- *)
 
